@@ -122,9 +122,13 @@ EXOTIC_MEMBERS = [
     Member("k_void", 10, "kind", [(_mk(Empty), wire.f_len(10, b""), {})]),
     Member("k_uint", 11, "kind", [(_const(0), wire.f_varint(11, 0), "0"), (_const(7), wire.f_varint(11, 7), "7"),
                                   (_const(2**64 - 1), wire.f_varint(11, 2**64 - 1), str(2**64 - 1))]),
+    # a group whose members are separated by another field in the declaration
+    Member("s_a", 17, "split", [(_const(0), wire.f_varint(17, 0), 0), (_const(4), wire.f_varint(17, 4), 4)]),
+    Member("s_b", 19, "split", [(_const(""), wire.f_len(19, b""), ""), (_const("w"), wire.f_len(19, b"w"), "w")]),
 ]
 EXOTIC_PLAIN = [
     ("last", [(_const(9), wire.f_varint(536870911, 9), 9)]),
+    ("mid", [(_const(6), wire.f_varint(18, 6), 6)]),
     ("r_void", [(lambda: [Empty()], wire.f_len(15, b""), [{}])]),
     ("w_uint32", [(_const(0), wire.f_len(6, b""), 0), (_const(3), wire.f_len(6, wire.f_varint(1, 3)), 3)]),
 ]
